@@ -8,3 +8,4 @@ Definition k_flow_ContentInfo_unpack : pfun :=
     SAssign ["content"] (PMeth "read_octet_string/tag,hint" (PName "reader") [(PName "content_tag"); (PStr [67; 111; 110; 116; 101; 110; 116; 73; 110; 102; 111; 46; 99; 111; 110; 116; 101; 110; 116])]);
     SReturn (PCall "ContentInfo" [(PName "content_type"); (PName "content")])
   ] |}.
+Definition k_flow_ContentInfo_unpack_defaults : list (string * pexp) := [("header", PNone)].
